@@ -137,7 +137,7 @@ class Run:
         m = re.search(r"depth of the complete state graph search is (\d+)", out)
         if m:
             st["depth"] = int(m.group(1))
-        st["violated"] = bool(re.search(r"Invariant .* is violated|Action property .* is violated|Temporal properties were violated|Error: Deadlock|is violated", out))
+        st["violated"] = bool(re.search(r"Invariant .* is violated|Action property .* is violated|Temporal properties were violated|Temporal property .* was violated|Error: Deadlock|is violated", out))
         st["completed"] = "Model checking completed" in out or (mode == "simulate" and "Finished in" in out)
         st["out"] = out
         if p.returncode == 124:
